@@ -3,6 +3,7 @@ package rules
 import (
 	"fmt"
 	"go/token"
+	"go/types"
 	"strings"
 
 	"bxhlint/core"
@@ -68,7 +69,7 @@ func C05(c *Ctx) {
 	r := c.R
 	r.Rule("R05.1", "global SUCCESS only when complete: the global state is fed to the FSM (setFSM(&txInfo.GlobalState, ..)) only across the true edge of isMultiTxFinished; no code stores the constant SUCCESS into a GlobalState; isMultiTxFinished returns true only as count == ChildTxCount after comparing every child (any different child returns false).")
 	r.Rule("R05.2", "failure flips everything: in the failure branches (BeginMultiTXs with isFailed on an existing group, changeMultiTxStatus on a failure receipt, executor setGlobalTxStatus) a loop over ChildTxInfo assigns every child (the assignment is unconditional in its loop), the global state is set, and the contract branches remove the group from the timeout list; a child joining a group is set to BEGIN only across the edge GlobalState == BEGIN.")
-	r.Rule("R05.3", "notification routing: in addToMultiTxNotifyMap the chain a child id is filed under is derived from that id: inside a loop over the id list no fixed element (ids[const]) may feed the key of the update that appends the loop element.")
+	r.Rule("R05.3", "notification routing: in addToMultiTxNotifyMap the chain a child id is filed under is derived from that id: inside a loop over the id list no fixed element (ids[const]) may feed the key of the update that appends the loop element; an update that files all ids at once lies behind the notify-source flag and its key uses only the source component of an id (the one part all children of a group share).")
 	r.NotDecided = append(r.NotDecided, "that destinations really roll back; group timing over histories")
 
 	m := c.Contracts()
@@ -245,6 +246,45 @@ func C05(c *Ctx) {
 					return false
 				})
 				if slice == nil {
+					// a bulk update (append(m[k], ids...)): the key stands for all ids, so it may only use what all
+					// children of a group share - the source component of an id - and only when notifying the source
+					var idsParam ssa.Value
+					for _, p := range an.Params {
+						if _, isSl := p.Type().Underlying().(*types.Slice); isSl {
+							idsParam = p
+						}
+					}
+					if idsParam == nil || !core.Mentions(mu.Value, func(v ssa.Value) bool { return v == idsParam }) {
+						continue
+					}
+					nLoops++
+					dstPart := core.Mentions(mu.Key, func(v ssa.Value) bool {
+						ex, ok := v.(*ssa.Extract)
+						if !ok || ex.Index == 0 {
+							return false
+						}
+						cl, ok := ex.Tuple.(*ssa.Call)
+						return ok && strings.HasSuffix(core.CalleeName(cl), "pb.ParseIBTPID")
+					})
+					var toSrc *ssa.Parameter
+					for _, p := range an.Params {
+						if b, ok := p.Type().Underlying().(*types.Basic); ok && b.Kind() == types.Bool {
+							toSrc = p
+						}
+					}
+					onlySrc := false
+					if toSrc != nil {
+						es := condEdges(an, func(f core.Fact, ifi *ssa.If) (bool, int) {
+							if f.Kind == core.FBool && core.Strip(f.Subject) == ssa.Value(toSrc) {
+								return true, holdsEdge(f)
+							}
+							return false, 0
+						})
+						rs := core.Reach([]core.Point{core.EntryOf(an)}, nil, core.CutOf(es))
+						onlySrc = es.Len() > 0 && !rs.Has(in)
+					}
+					r.Check(!dstPart && onlySrc, "R05.3", "addToMultiTxNotifyMap: bulk filing only under the shared source", c.P.Pos(in.Pos()), "all ids filed at once only behind toSrc, under the source chain of an id",
+						fmt.Sprintf("all ids are filed under one chain although that chain is not shared by them (key uses the destination part of one id: %v; restricted to the notify-source case: %v): children on other destination chains are never notified, the group does not end everywhere", dstPart, onlySrc))
 					continue
 				}
 				nLoops++
@@ -269,7 +309,7 @@ func C05(c *Ctx) {
 					fmt.Sprintf("inside the loop over the id list the chain key is derived from a fixed element (ids[const]) instead of the id being filed (fixed=%v, fromElement=%v): children of other chains are filed under the first child's chain", fixed, fromElem))
 			}
 		}
-		r.Floor("R05.3", "per-element updates in addToMultiTxNotifyMap", nLoops, 1)
+		r.Floor("R05.3", "notification-map updates in addToMultiTxNotifyMap", nLoops, 1)
 	}
 
 	// R05.4: the group leaves the timeout list only after its global state changed
